@@ -437,6 +437,227 @@ pub fn build_names(variant: u64) -> Vec<u8> {
     out
 }
 
+/// GDEF 1.3 with an ItemVariationStore + GPOS `kern` lookups with VariationIndex device tables.
+pub fn build_var_gpos(axes: u16, glyphs: &[u16], variant: u64) -> (Vec<u8>, Vec<u8>) {
+    let p16 = |v: &mut Vec<u8>, x: u16| v.extend_from_slice(&x.to_be_bytes());
+    let p32 = |v: &mut Vec<u8>, x: u32| v.extend_from_slice(&x.to_be_bytes());
+    // ---- GDEF
+    let mut gdef = Vec::new();
+    p16(&mut gdef, 1);
+    p16(&mut gdef, 3);
+    p16(&mut gdef, 0); // glyphClassDef
+    p16(&mut gdef, 0); // attachList
+    p16(&mut gdef, 0); // ligCaretList
+    p16(&mut gdef, 0); // markAttachClassDef
+    p16(&mut gdef, 0); // markGlyphSetsDef
+    p32(&mut gdef, 18); // itemVarStore
+    // ItemVariationStore: format, regionListOffset, dataCount, dataOffsets
+    let regions: u16 = 2;
+    let ivs_header = 2 + 4 + 2 + 4;
+    let region_list_len = 4 + usize::from(regions) * usize::from(axes) * 6;
+    p16(&mut gdef, 1);
+    p32(&mut gdef, ivs_header as u32);
+    p16(&mut gdef, 1);
+    p32(&mut gdef, (ivs_header + region_list_len) as u32);
+    p16(&mut gdef, axes);
+    p16(&mut gdef, regions);
+    for r in 0..regions {
+        for a in 0..axes {
+            // region 0: positive half of axis 0; region 1: negative half of the last axis
+            let (start, peak, end): (i16, i16, i16) = if r == 0 && a == 0 {
+                (0, 0x4000, 0x4000)
+            } else if r == 1 && a == axes - 1 {
+                (-0x4000, -0x4000, 0)
+            } else {
+                (0, 0, 0)
+            };
+            gdef.extend_from_slice(&start.to_be_bytes());
+            gdef.extend_from_slice(&peak.to_be_bytes());
+            gdef.extend_from_slice(&end.to_be_bytes());
+        }
+    }
+    // ItemVariationData: itemCount, wordDeltaCount, regionIndexCount, regionIndexes, delta sets
+    let items: u16 = 3;
+    let words = (variant % 3) as u16; // 0, 1 or 2 word-sized deltas per row
+    p16(&mut gdef, items);
+    p16(&mut gdef, words.min(regions));
+    p16(&mut gdef, regions);
+    p16(&mut gdef, 0);
+    p16(&mut gdef, 1);
+    let rows: [[i16; 2]; 3] = [[100, -60], [-40, 25], [7, 120]];
+    for row in rows.iter().take(usize::from(items)) {
+        for (k, dlt) in row.iter().enumerate() {
+            if (k as u16) < words.min(regions) {
+                gdef.extend_from_slice(&dlt.to_be_bytes());
+            } else {
+                gdef.push(*dlt as i8 as u8);
+            }
+        }
+    }
+    // ---- GPOS: DFLT + latn scripts -> feature kern -> lookups 0 (single) and 1 (pair)
+    let mut gpos = Vec::new();
+    p16(&mut gpos, 1);
+    p16(&mut gpos, 0);
+    p16(&mut gpos, 10); // scriptList
+    let script_list_len = 2 + 2 * 6 + 2 * (4 + 6 + 2);
+    p16(&mut gpos, (10 + script_list_len) as u16); // featureList
+    let feature_list_len = 2 + 6 + 4 + 4;
+    p16(&mut gpos, (10 + script_list_len + feature_list_len) as u16); // lookupList
+    // ScriptList
+    p16(&mut gpos, 2);
+    gpos.extend_from_slice(b"DFLT");
+    p16(&mut gpos, 14);
+    gpos.extend_from_slice(b"latn");
+    p16(&mut gpos, 14 + 12);
+    for _ in 0..2 {
+        p16(&mut gpos, 4); // defaultLangSys
+        p16(&mut gpos, 0); // langSysCount
+        p16(&mut gpos, 0); // lookupOrder
+        p16(&mut gpos, 0xFFFF); // requiredFeatureIndex
+        p16(&mut gpos, 1);
+        p16(&mut gpos, 0);
+    }
+    // FeatureList
+    p16(&mut gpos, 1);
+    gpos.extend_from_slice(b"kern");
+    p16(&mut gpos, 8);
+    p16(&mut gpos, 0);
+    p16(&mut gpos, 2);
+    p16(&mut gpos, 0);
+    p16(&mut gpos, 1);
+    // LookupList
+    let ll = gpos.len();
+    p16(&mut gpos, 2);
+    p16(&mut gpos, 0); // patched
+    p16(&mut gpos, 0); // patched
+    let coverage = |gs: &[u16]| -> Vec<u8> {
+        let mut v = Vec::new();
+        v.extend_from_slice(&1u16.to_be_bytes());
+        v.extend_from_slice(&(gs.len() as u16).to_be_bytes());
+        for g in gs {
+            v.extend_from_slice(&g.to_be_bytes());
+        }
+        v
+    };
+    let var_index = |inner: u16| -> Vec<u8> {
+        let mut v = Vec::new();
+        v.extend_from_slice(&0u16.to_be_bytes()); // outer
+        v.extend_from_slice(&inner.to_be_bytes());
+        v.extend_from_slice(&0x8000u16.to_be_bytes());
+        v
+    };
+    // lookup 0: SinglePos
+    let l0 = gpos.len();
+    let off0 = (l0 - ll) as u16;
+    gpos[ll + 2..ll + 4].copy_from_slice(&off0.to_be_bytes());
+    p16(&mut gpos, 1);
+    p16(&mut gpos, 0);
+    p16(&mut gpos, 1);
+    p16(&mut gpos, 8);
+    let st = gpos.len();
+    let fmt2 = variant % 2 == 1;
+    // valueFormat: XAdvance | XAdvDevice (+ XPlacement | XPlaDevice for odd variants)
+    let vf: u16 = if variant % 4 >= 2 { 0x0004 | 0x0040 | 0x0001 | 0x0010 } else { 0x0004 | 0x0040 };
+    let fields = vf.count_ones() as usize;
+    if !fmt2 {
+        // format 1: format, coverageOffset, valueFormat, value
+        let value_at = 6;
+        let dev_at = value_at + 2 * fields;
+        let cov_at = dev_at + 6 * (fields / 2);
+        p16(&mut gpos, 1);
+        p16(&mut gpos, cov_at as u16);
+        p16(&mut gpos, vf);
+        let mut devs = Vec::new();
+        let mut k = 0u16;
+        for bit in [0x0001u16, 0x0004, 0x0010, 0x0040] {
+            if vf & bit != 0 {
+                if bit < 0x0010 {
+                    p16(&mut gpos, 10 + k);
+                } else {
+                    p16(&mut gpos, (dev_at + devs.len()) as u16);
+                    devs.extend(var_index(k % 3));
+                }
+                k += 1;
+            }
+        }
+        gpos.extend_from_slice(&devs);
+        debug_assert_eq!(gpos.len() - st, cov_at);
+        gpos.extend(coverage(glyphs));
+    } else {
+        // format 2: one value record per covered glyph
+        let count = glyphs.len().min(64);
+        let gs = &glyphs[..count];
+        let values_at = 8;
+        let dev_at = values_at + 2 * fields * count;
+        let ndev = (fields / 2) * count;
+        let cov_at = dev_at + 6 * ndev;
+        p16(&mut gpos, 2);
+        p16(&mut gpos, cov_at as u16);
+        p16(&mut gpos, vf);
+        p16(&mut gpos, count as u16);
+        let mut devs = Vec::new();
+        for i in 0..count {
+            for bit in [0x0001u16, 0x0004, 0x0010, 0x0040] {
+                if vf & bit != 0 {
+                    if bit < 0x0010 {
+                        p16(&mut gpos, 5 + i as u16);
+                    } else {
+                        p16(&mut gpos, (dev_at + devs.len()) as u16);
+                        devs.extend(var_index((i % 3) as u16));
+                    }
+                }
+            }
+        }
+        gpos.extend_from_slice(&devs);
+        debug_assert_eq!(gpos.len() - st, cov_at);
+        gpos.extend(coverage(gs));
+    }
+    // lookup 1: PairPos format 1, first glyph of each pair from the list, second = next in list
+    let l1 = gpos.len();
+    let off1 = (l1 - ll) as u16;
+    gpos[ll + 4..ll + 6].copy_from_slice(&off1.to_be_bytes());
+    p16(&mut gpos, 2);
+    p16(&mut gpos, 0);
+    p16(&mut gpos, 1);
+    p16(&mut gpos, 8);
+    let pairs: Vec<(u16, u16)> = glyphs.windows(2).take(16).map(|w| (w[0], w[1])).collect();
+    if pairs.is_empty() {
+        // degenerate: empty pair positioning on the only glyph
+        p16(&mut gpos, 1);
+        p16(&mut gpos, 10);
+        p16(&mut gpos, 0);
+        p16(&mut gpos, 0);
+        p16(&mut gpos, 0);
+        gpos.extend(coverage(&glyphs[..1]));
+    } else {
+        let firsts: Vec<u16> = pairs.iter().map(|p| p.0).collect();
+        let pst = gpos.len();
+        // header: format, coverage, vf1, vf2, pairSetCount, offsets
+        let header = 10 + 2 * pairs.len();
+        // each pair set: count(2) + record(second 2 + xadv 2 + dev 2) = 8, + device 6
+        let set_len = 8 + 6;
+        let cov_at = header + set_len * pairs.len();
+        p16(&mut gpos, 1);
+        p16(&mut gpos, cov_at as u16);
+        p16(&mut gpos, 0x0044);
+        p16(&mut gpos, 0);
+        p16(&mut gpos, pairs.len() as u16);
+        for i in 0..pairs.len() {
+            p16(&mut gpos, (header + set_len * i) as u16);
+        }
+        for (i, (_, second)) in pairs.iter().enumerate() {
+            p16(&mut gpos, 1);
+            p16(&mut gpos, *second);
+            p16(&mut gpos, (i as u16).wrapping_mul(3));
+            p16(&mut gpos, 8); // device offset from the PairSet table
+            gpos.extend(var_index((i % 3) as u16));
+        }
+        debug_assert_eq!(gpos.len() - pst, cov_at);
+        gpos.extend(coverage(&firsts));
+    }
+    (gdef, gpos)
+}
+
 fn num_glyphs(disk: &Disk) -> Result<u16, String> {
     disk.tables
         .get(&tag_from_str("maxp"))
@@ -566,6 +787,28 @@ pub fn apply(disk: &mut Disk, s: &Surgery) -> Result<(), String> {
         }
         Surgery::LongNames { variant } => {
             disk.tables.insert(tag_from_str("name"), Rc::new(build_names(*variant)));
+            Ok(())
+        }
+        Surgery::InstallVarGpos { glyphs, variant } => {
+            let n = num_glyphs(disk)?;
+            let axes = disk
+                .tables
+                .get(&FVAR)
+                .and_then(|f| be16(f, 8))
+                .ok_or("surgery: no fvar")?;
+            let gs: Vec<u16> = {
+                let mut v: Vec<u16> = glyphs.iter().copied().filter(|g| *g < n).collect();
+                v.sort_unstable();
+                v.dedup();
+                v
+            };
+            if gs.is_empty() || axes == 0 {
+                return Err("surgery: nothing to key the variable GPOS on".into());
+            }
+            let (gdef, gpos) = build_var_gpos(axes, &gs, *variant);
+            disk.tables.insert(tag_from_str("GDEF"), Rc::new(gdef));
+            disk.tables.insert(tag_from_str("GPOS"), Rc::new(gpos));
+            disk.tables.remove(&tag_from_str("kern"));
             Ok(())
         }
         Surgery::CompactHmtx { num_h_metrics } => {
